@@ -534,3 +534,41 @@ func VP_C12_reload_after_failure() {
 	}
 	vp.Cover("end")
 }
+
+// histories around a palette that is exactly full (16, 32, 64, 128, 256
+// entries): a value stops being referenced, a new value arrives, the old value
+// comes back - Get still returns the last value set everywhere. Ids arbitrary
+// (an arithmetic progression from an arbitrary base plus three free values).
+func VP_C12_full_palette_history() {
+	full := []int{16, 32, 64, 128, 256}[vp.Choice(5)]
+	L := full + 8
+	base := 1000
+	if vp.Tier() == 1 {
+		base = vp.Int() // thorough: the progression starts anywhere
+		vp.Assume(base >= 1000 && base < 5000)
+	}
+	c := NewStatesPaletteContainer(L, 0)
+	model := make([]BlocksState, L)
+	for i := 1; i < full; i++ { // default 0 plus full-1 values: the palette is exactly full
+		v := BlocksState(base + 3*i)
+		c.Set(i, v)
+		model[i] = v
+	}
+	x := model[5] // referenced once
+	c.Set(5, model[6])
+	model[5] = model[6] // x is no longer held by any position
+	n1, n2 := vpStateID(), vpStateID()
+	vp.Assume(n1 > 9000 && n2 > 9000 && n1 != n2)
+	c.Set(full+1, n1) // a brand-new value while the palette is full
+	model[full+1] = n1
+	c.Set(full+2, x) // the old value comes back
+	model[full+2] = x
+	c.Set(full+3, n2)
+	model[full+3] = n2
+	c.Set(7, x)
+	model[7] = x
+	for i := 0; i < L; i++ {
+		vp.Assert(c.Get(i) == model[i], "Get returns the last value set")
+	}
+	vp.Cover("end")
+}
